@@ -217,6 +217,18 @@ def _impl(tier, seed, search):
                 L.close('Twist2.Prismatic:translation', T[:2, 2], th * a2 / np.linalg.norm(a2), TOL, max(1.0, abs(th)), dict(a=a2, theta=th)); L.close('Twist2.Prismatic:no-rotation', T[:2, :2], np.eye(2), TOL, 1.0, dict(a=a2))
             ok2, r = L.noraise('Twist2.Prismatic.isprismatic', lambda: P2.isprismatic, dict(a=a2), 'isprismatic')
             if ok2: L.check('Twist2.Prismatic:isprismatic', bool(r), dict(a=a2), 'a planar prismatic twist is not reported prismatic')
+    # round 11: a caller's array of joint angles is read, not converted in place: the same array gives the same poses on every call
+    # (Twist3.exp / Twist2.exp, degrees and radians), and is unchanged afterwards
+    for nm_, mk_ in (('Twist3', lambda: Twist3.Revolute([0, 0, 1], [1, 2, 0])), ('Twist2', lambda: Twist2.Revolute([1, 2]))):
+        for un_ in ('deg', 'rad'):
+            ang_ = np.array([30.0, 90.0, -45.0]) if un_ == 'deg' else np.array([0.5, 1.5, -0.75]); keep_ = ang_.copy()
+            inp_ = dict(twist=nm_, theta=keep_, units=un_)
+            ok, r = L.noraise(f'{nm_}.exp(array) twice', lambda: ([x_.A.copy() for x_ in mk_().exp(ang_, units=un_)], [x_.A.copy() for x_ in mk_().exp(ang_, units=un_)]), inp_,
+                              f'{nm_}.exp(array, units={un_}) called twice', sig=f'exp-array-twice:{nm_}:raises')
+            if ok:
+                L.check(f'{nm_}.exp(array):argument unchanged', np.array_equal(ang_, keep_), inp_, f'{nm_}.exp overwrote the array of angles it was given')
+                for A_, B_ in zip(*r):
+                    L.close(f'{nm_}.exp(array) twice', B_, A_, 1e-15, 1.0, inp_, what='the second call with the same array of angles gives a different pose', sig=f'exp-array-twice:{nm_}')
     return L.result()
 
 def geom_sk(w):
